@@ -183,13 +183,16 @@ def run_cli(args, stdin=None, hashseed="0"):
 
 def expected_summary(root):
     lines = []
-    for node, _, _ in tree.preorder(root):
+    # ancestors come from the walk itself (the child lists), not from the nodes' parent references
+    holder = {id(root): None}
+    for node, parent, _ in tree.preorder(root):
+        holder[id(node)] = parent
         chain = []
-        n = node
         anc = []
+        n = node
         while n is not None:
             anc.append(n)
-            n = n.parent
+            n = holder.get(id(n))
         for a in reversed(anc):  # root first
             if a.obfuscation:
                 chain.append(">" + a.obfuscation)
